@@ -22,9 +22,13 @@ long vfx_syscall(long nr, ...);
 }
 #endif
 #define openat vfx_openat
+#if VF_MODEL
+/* model build only: the cgroup.procs stream is a model object. In the real build libstdc++'s <cstdio> #undefs fclose & co,
+ * so the real stdio runs there on a real descriptor (a memfd with the same text) handed out by the redirected openat. */
 #define fdopen vfx_fdopen
 #define getline vfx_getline
 #define fclose vfx_fclose
 #define close vfx_close
+#endif
 #define kill vfx_kill
 #define syscall vfx_syscall
